@@ -29,7 +29,7 @@ FILE_PROPS = {
     "cyecca/lie/group_rn.py": ["C01", "C04", "C02", "C03"],
     "cyecca/lie/direct_product.py": ["C01", "C04", "C02", "C03"],
     "cyecca/lie/base.py": ["C01", "C04", "C02", "C03"],
-    "cyecca/symbolic.py": ["C19", "C06"],
+    "cyecca/symbolic.py": ["C19", "C06", "C08", "C05", "C02"],
     "cyecca/util.py": ["C10", "C11"],
     "cyecca/models/rdd2.py": ["C13", "C15", "C14", "C08", "C17", "C09"],
     "cyecca/models/rdd2_loglinear.py": ["C15", "C14", "C17"],
@@ -194,7 +194,15 @@ def main():
     ap.add_argument("--jobs", type=int, default=4)
     ap.add_argument("--seed", type=int, default=1)
     ap.add_argument("--files", default=None)
+    ap.add_argument("--recheck", default=None, help="results file of an earlier sweep (same --seed/--per-file): rerun its survivors only")
     a = ap.parse_args()
+    only = None
+    if a.recheck:
+        only = set()
+        for l in open(a.recheck):
+            r = json.loads(l)
+            if r["status"] != "killed":
+                only.add((r["file"], r["mutation"]))
     rng = random.Random(a.seed)
     files = a.files.split(",") if a.files else sorted(FILE_PROPS)
     jobs = []
@@ -219,7 +227,8 @@ def main():
                 compile(new_src, rel, "exec")
             except Exception:
                 continue
-            jobs.append((rel, idx, desc, new_src, FILE_PROPS[rel], max(2, 16 // a.jobs)))
+            if only is None or (rel, desc) in only:
+                jobs.append((rel, idx, desc, new_src, FILE_PROPS[rel], max(2, 16 // a.jobs)))
             taken += 1
     print("mutants:", len(jobs), flush=True)
     done = 0
